@@ -167,7 +167,7 @@ theorem setTopUppedArray_toppedUp (l : List Bool) (s0 : BitString) :
       rcases h with h | h
       · simp [h0] at h
       · omega
-    simp only [hf, if_false, bind_run]
+    simp only [hf, if_false]
     obtain ⟨s', hs, hl', hc', hr', hb', hbits'⟩ := stripLoop_spec (7 - l.length % 8) 7
       { s0 with cap := (toppedUp l).length * 8, buf := toppedUp l, len := (toppedUp l).length * 8 }
       l.length l
